@@ -269,6 +269,7 @@ def corpus_batch(files, ctr, out):
         finally:
             signal.alarm(0)
         ctr["corpus_files_checked"] += 1
+        common.release_tealer_caches()
         out["cases"] += 1
         out["nontrivial"].extend(nontrivial)
         for v in viols[:3]:
